@@ -67,6 +67,28 @@ class StepLoop(asyncio.SelectorEventLoop):
                 raise Livelock("loop does not settle")
         return n
 
+    def jump_ms(self, ms):
+        """let time pass up to the next timer (at most `ms`) and make the due timers *ready without running them* —
+        the first half of one `_run_once`; whatever the harness does next happens in the same loop iteration as
+        those timer callbacks, ahead of them (the model's `fire` label)"""
+        if any(not h._cancelled for h in self._ready):
+            return
+        target = self._ms + ms
+        w = self.next_timer()
+        if w is not None and int(round(w * UPS)) <= target:
+            if w > self._vt:
+                self._vt = w
+            self._ms = max(self._ms, int(round(w * UPS)))
+            end = self._vt + self._clock_resolution
+            while self._scheduled and self._scheduled[0]._when < end:
+                h = heapq.heappop(self._scheduled)
+                h._scheduled = False
+                if not h._cancelled:
+                    self._ready.append(h)
+        else:
+            self._ms = target
+            self._vt = max(self._vt, target / float(UPS))
+
     def advance_ms(self, ms):
         """let virtual time pass; fire timers in order, settling after each"""
         target = self._ms + ms
@@ -238,6 +260,7 @@ class Sim:
         self.calls = []           # parser oracle columns, one per feed_data call
         self.payload_owner = {}   # id(stream) -> message index (append order in _messages)
         self.n_msgs = 0
+        self.upgrade_with_body = False   # an Upgrade request that carries a body was parsed
         self.n_err_entries = 0    # _ErrInfo entries the protocol queued (parser raised HttpProcessingError)
         self.kinds = []           # per message index: normal / head / connect
         self.inflight_log = []
@@ -364,6 +387,8 @@ class Sim:
                 for m, p in msgs:
                     toks.append(_msg_tok(m, p, evs))
                     sim.kinds.append("head" if m.method == "HEAD" else "connect" if m.method == "CONNECT" else "normal")
+                    if m.upgrade and p is not EMPTY_PAYLOAD:
+                        sim.upgrade_with_body = True
                     if p is not EMPTY_PAYLOAD:
                         sim.payload_owner[id(p)] = sim.n_msgs
                         sim._keep.append(p)
@@ -405,6 +430,16 @@ class Sim:
         except BaseException as e:  # noqa
             self.escaped.append(type(e).__name__)
 
+    def write_pause(self, on):
+        """the transport's write buffer crossed its high / low water mark"""
+        try:
+            if on and not self.proto._paused:
+                self.proto.pause_writing()
+            elif not on and self.proto._paused:
+                self.proto.resume_writing()
+        except BaseException as e:  # noqa
+            self.escaped.append(type(e).__name__)
+
     def app_shutdown(self):
         """the application shuts down (`runner.cleanup()`: pre_shutdown, Server.shutdown(shutdown_timeout)) while this
         connection exists; the coroutine runs on the stepped loop like everything else"""
@@ -419,6 +454,9 @@ class Sim:
 
     def advance(self, ms):
         self.loop.advance_ms(ms)
+
+    def jump(self, ms):
+        self.loop.jump_ms(ms)
 
     # -- observation
     def now_ms(self):
@@ -545,7 +583,8 @@ def frame_responses(out, kinds=()):
             body, end = out[body_start:body_start + ln], body_start + ln
         else:
             # close-delimited: everything up to the end of the stream belongs to this response
-            rs.append({"status": status, "headers": d, "body": out[body_start:], "interim": False, "until_close": True})
+            rs.append({"status": status, "headers": d, "body": out[body_start:], "interim": False, "until_close": True,
+                       "http10": lines[0].startswith(b"HTTP/1.0 ")})
             return rs, "0"
         rs.append({"status": status, "headers": d, "body": body, "interim": False})
         idx += 1
